@@ -26,6 +26,59 @@ def runner_ensures(fn, nparams, valued):
     return e
 
 
+# ---- the stdlib callers of the Runner methods: checked against the Runner contracts, not the bodies ----
+_RW_FOR = lambda it, expr_re, expr: dict(**{"from": r"for item in " + expr_re + r" \{", "to": ("let mut __iter = %s; " % expr if it == "__iter" else "") + "loop { let item = match %s.next() { Some(__x) => __x, None => break };" % it,
+                                           "regex": True, "count": 1, "why": "`for x in it {..}` by its definition: `loop { match it.next() { Some(x) => {..}, None => break } }` (Iterator::by_ref / IntoIterator::into_iter on an iterator are the identity)"})
+_NEW = "old(ctx).trace@, final(ctx).trace@"
+_INV = "only_closure_runs(old(ctx).trace@, ctx.trace@)"
+
+
+def _caller_ensures(fn, n, valued):
+    e = [("C13.%s.restore" % fn, "after the whole call, on every exit (all iterations done, or an iteration failed / aborted), every closure parameter variable holds its pre-call binding or is still unset",
+          "params_restored(*runner, old(ctx).state.vars@, final(ctx).state.vars@, %d)" % n),
+         ("C13.%s.only_closure_runs" % fn, "the call touches the interpreter state only through Runner iterations (nothing else is appended to the trace)",
+          "only_closure_runs(%s)" % _NEW),
+         ("C07.%s.abort" % fn, "an abort raised in any iteration leaves the call unchanged as that abort",
+          "forall|k: int| old(ctx).trace@.len() <= k < final(ctx).trace@.len() && ((#[trigger] final(ctx).trace@[k])->RunClosure_0 is Err) && (final(ctx).trace@[k]->RunClosure_0->Err_0 is Abort) ==> r is Err && r->Err_0 == final(ctx).trace@[k]->RunClosure_0->Err_0")]
+    if valued:
+        e += [("C06.%s.stops_at_first_error" % fn, "an iteration that fails ends the call at once with that error; `return` in the closure only ends its iteration",
+               "earlier_runs_ok(%s) && (r is Err ==> final(ctx).trace@.len() > old(ctx).trace@.len() && r == iteration_value(final(ctx).trace@.last()->RunClosure_0))" % _NEW),
+              ("C06.%s.ok_means_all_ok" % fn, "the call succeeds (with null) only when every iteration ended normally or by `return`",
+               "r is Ok ==> all_runs_ok(%s) && r->Ok_0 is Null" % _NEW)]
+    return e
+
+
+UNITS["v_closure_callers"] = dict(
+    prop=["C13", "C06", "C07"], tier="q", prelude=["interp.rs", "closure.rs", "closurecallers.rs"],
+    native_witness={"C13": ["closure_scope"], "C06": ["ctl_programs"], "C07": ["ctl_programs"]},
+    fns=[
+        dict(id="for_each", file="src/stdlib/for_each.rs", impl=None, name="for_each",
+             orig_sig="fn for_each<T>(value: Value, ctx: &mut Context, runner: &closure::Runner<T>) -> Resolved where T: Fn(&mut Context) -> Resolved,",
+             sig="pub fn for_each(value: Value, ctx: &mut Context, runner: &Runner) -> (r: Resolved)",
+             rewrites=[_RW_FOR("__iter", r"value\.into_iter\(false\)", "value.into_iter(false)")],
+             loops={"_count": 1, 0: dict(spec="invariant params_restored(*runner, old(ctx).state.vars@, ctx.state.vars@, 2), %s, all_runs_ok(old(ctx).trace@, ctx.trace@),\n decreases __iter.left@," % _INV)},
+             ensures=_caller_ensures("for_each", 2, True),
+             safety_id="C13.for_each.safety", safety_text="the iteration loop terminates with the iterator (decreases: items left)"),
+        dict(id="map_keys", file="src/stdlib/map_keys.rs", impl=None, name="map_keys",
+             orig_sig="fn map_keys<T>( value: Value, recursive: bool, ctx: &mut Context, runner: &closure::Runner<T>, ) -> Resolved where T: Fn(&mut Context) -> Resolved,",
+             sig="pub fn map_keys(value: Value, recursive: bool, ctx: &mut Context, runner: &Runner) -> (r: Resolved)",
+             rewrites=[_RW_FOR("iter", r"iter\.by_ref\(\)", ""),
+                       dict(**{"from": "Ok(iter.into())", "to": "Ok(iter.into_value())", "count": 1, "why": "From<ValueIter> for Value: the rebuilt collection, opaque"})],
+             loops={"_count": 1, 0: dict(spec="invariant params_restored(*runner, old(ctx).state.vars@, ctx.state.vars@, 1), %s, no_abort_runs(old(ctx).trace@, ctx.trace@),\n decreases iter.left@," % _INV)},
+             ensures=_caller_ensures("map_keys", 1, False),
+             safety_id="C13.map_keys.safety", safety_text="the iteration loop terminates with the iterator (decreases: items left)"),
+        dict(id="map_values", file="src/stdlib/map_values.rs", impl=None, name="map_values",
+             orig_sig="fn map_values<T>( value: Value, recursive: bool, ctx: &mut Context, runner: &closure::Runner<T>, ) -> Resolved where T: Fn(&mut Context) -> Resolved,",
+             sig="pub fn map_values(value: Value, recursive: bool, ctx: &mut Context, runner: &Runner) -> (r: Resolved)",
+             rewrites=[_RW_FOR("iter", r"iter\.by_ref\(\)", ""),
+                       dict(**{"from": "Ok(iter.into())", "to": "Ok(iter.into_value())", "count": 1, "why": "From<ValueIter> for Value: the rebuilt collection, opaque"})],
+             loops={"_count": 1, 0: dict(spec="invariant params_restored(*runner, old(ctx).state.vars@, ctx.state.vars@, 1), %s, no_abort_runs(old(ctx).trace@, ctx.trace@),\n decreases iter.left@," % _INV)},
+             ensures=_caller_ensures("map_values", 1, False),
+             safety_id="C13.map_values.safety", safety_text="the iteration loop terminates with the iterator (decreases: items left)"),
+    ],
+)
+
+
 UNITS["v_closure_runner"] = dict(
     prop=["C13", "C06", "C07"], tier="q", prelude=["interp.rs", "closure.rs"],
     native_witness={"C13": ["closure_scope"], "C06": ["ctl_programs"], "C07": ["ctl_programs"]},
